@@ -333,6 +333,59 @@ def frame_cases(system: str) -> list[tuple[str, str]]:
                     out.append((f"{tag}:{q}", "" if near(a, want) else
                         f"field {ftxt} re-expressed takes {short(sp.N(a, 12))} at the physical point, "
                         f"reference {short(sp.N(want, 12))}"))
+        # frames whose ORIGIN is shifted (and turned too), given through the optional `inner`
+        # argument: scalar fields only (a Vector holds free components, an origin means nothing
+        # to it).  local = coordinates in the shifted frame; parent = shift + unrot(local).
+        inner = cart.coord_system
+        shift = (1, 2, 3)
+        sv = shift[0] * inner.i + shift[1] * inner.j + shift[2] * inner.k
+        variants = [("shift+turn", inner.orient_new_axis(f"ST{axis}", ANG, ax, location=sv),
+            lambda v, axis=axis: tuple(a + b for a, b in zip(shift, _unrot(axis, v))))]
+        if axis == "k":
+            variants.append(("shift", inner.locate_new("SH", sv),
+                lambda v: tuple(a + b for a, b in zip(shift, v))))
+        for vname, fr, to_parent in variants:
+            for tname, tsys, TP in (("cartesian", S.CARTESIAN, CartesianPoint), (system, kind, PT)):
+                dst = CoordinateSystem(tsys, fr)
+                for ftxt in FIELDS[1:8:2] + FIELDS[9:10]:
+                    fx = sp.sympify(ftxt)
+                    for direction in ("cart->", "->cart"):
+                        tag = f"frame-field-origin:{system}:{axis}:{vname}:{direction}{tname}:{ftxt}"
+                        if direction == "cart->":
+                            b = inner.base_scalars()
+                            expr = fx.subs({xs: b[0], ys: b[1], zs: b[2]}, simultaneous=True)
+                            src, tgt = cart, dst
+                        else:
+                            b = fr.base_scalars()
+                            cp = tuple(b) if tsys == S.CARTESIAN else R.position(system, tuple(b))
+                            expr = fx.subs({xs: cp[0], ys: cp[1], zs: cp[2]}, simultaneous=True)
+                            src, tgt = dst, cart
+                        try:
+                            g = ScalarField.from_expression(expr, src).rebase(tgt)
+                        except Exception as ex:  # pylint: disable=broad-except
+                            out.append((tag, f"re-expression raised {type(ex).__name__}: {short(ex)}"))
+                            continue
+                        for q in pts[::2]:
+                            local = R.position(system, q)
+                            parent = to_parent(local)
+                            if direction == "cart->":
+                                at = TP(*(local if tsys == S.CARTESIAN else q))
+                                want_at = parent
+                            else:
+                                at = CartesianPoint(*parent)
+                                want_at = local
+                            want = fx.subs({xs: want_at[0], ys: want_at[1], zs: want_at[2]},
+                                simultaneous=True)
+                            try:
+                                a = g(at)
+                            except Exception as ex:  # pylint: disable=broad-except
+                                out.append((f"{tag}:{q}", f"applying raised {type(ex).__name__}: "
+                                    f"{short(ex)}"))
+                                continue
+                            out.append((f"{tag}:{q}", "" if near(a, want) else
+                                f"field {ftxt} re-expressed over a frame with shifted origin takes "
+                                f"{short(sp.N(a, 12))} at the physical point, reference "
+                                f"{short(sp.N(want, 12))}"))
     return out
 
 
@@ -498,7 +551,7 @@ def main(run: Run) -> int:
         rule="both directions of Cartesian<->cylindrical and Cartesian<->spherical x lattice points "
         "of each domain x 1..3 components; dot / magnitude / scale against Cartesian values; 11 "
         "scalar fields x points in both directions; the same between a Cartesian frame rotated about "
-        "each axis (and curvilinear systems derived from it) and the parent's systems; refusal matrix (direct cylindrical<->spherical, "
+        "each axis (and curvilinear systems derived from it) and the parent's systems; scalar fields between the parent and Cartesian / curvilinear systems over a frame with shifted (and turned) origin, both directions; refusal matrix (direct cylindrical<->spherical, "
         "3 systems x 3 point kinds x 2 field kinds)",
         exhaustive=True,
         assumptions=["points away from the coordinate singularities", "values compared at 40 digits, "
